@@ -113,6 +113,9 @@ def to_harness(rows, start_id, attempts):
             # the sender's wait point is reached once with a stale notify_one permit in hand and once without:
             # both visits are scenarios
             at2s = [at2 + "#1", at2 + "#2"] if at2.startswith("sctp:") else [at2]
+        if (ev2 != "none" and r["evs"][0] in ("SocketLoss", "PeerSctpShutdown")
+                and any(a.startswith("pre:") for a in at2s)):
+            continue    # slow first events: racing second event only from the harness thread (each miss costs ~30 s)
         for at2 in at2s:
             out.append({"id": start_id + len(out), "kind": "c17", "mode": r["mode"], "victim": "A", "phase": r["phase"],
                         "ev1": r["evs"][0], "ev2": ev2, "at2": at2,
@@ -128,7 +131,7 @@ def run_harness(ck, scenarios, label, nshards):
     outs = [os.path.join(ck.dir, f"trace_{label}_{i}.ndjson") for i in range(nshards)]
 
     def one(i):
-        p = vlib.run_bin("life", ["run", spath, outs[i], f"{i}/{nshards}"], timeout=2400)
+        p = vlib.run_bin("life", ["run", spath, outs[i], f"{i}/{nshards}"], timeout=7200)
         if p.returncode != 0:
             raise vlib.ToolError(f"life shard {i} failed rc={p.returncode}: {p.stderr[-1500:]}")
     with ThreadPoolExecutor(max_workers=nshards) as ex:
@@ -243,7 +246,7 @@ def plan(tier):
                  ("mediapairs", dict(max_events=2, wfc=0, traffic=True, phases=["mediaFlowing"], ev2=["Close"])),
                  ("rtp", dict(max_events=1, wfc=0, mode="Rtp", dc=False, ev1=["Close", "Drop", "IceStop"])),
                  ("srtp", dict(max_events=1, wfc=0, mode="Srtp", dc=False, ev1=["Close", "Drop", "IceStop"]))],
-        "attempts": 3, "shards": 12, "repeat": 1,
+        "attempts": 2, "shards": 14, "repeat": 1,
     }
 
 
